@@ -37,7 +37,8 @@ import GoBk.Model.Bip39
   Loops: every loop of the transcribed functions is a `for` over a slice/string or a counted loop;
   they are transcribed as structural or fuel recursions whose fuel is the loop bound
   (`decodeLoopC`, `numZerosC`: `len(b)+1`; `wordsLoopC`: structural over the fields;
-  `mnemonicLoopC`: `ms/11+1`; `tableRowsC`: structural over `range newK`).  The only unbounded
+  `mnemonicLoopC`: `ms/11+1`; `tableRowsC`: structural over `range newK`; `derivePathAuxC`:
+  structural over the path components).  The only unbounded
   loop in the package is the RFC 6979 nonce loop (`Ecdsa.nonceLoop`, fuel parameter); it is not
   reachable from any of the decoders below.
 -/
@@ -443,10 +444,66 @@ def fromStringC (pr : Prims) (key : Bytes) : Res Bip32.XKey := do
 expression; the total model is the transcription -/
 def childIndexC (c : Bytes) : Res Nat := ofOption (Bip32.childIndex c)
 
+/-- `binary.BigEndian.PutUint32(b, v)` (`_ = b[3]` bounds check): the new contents of `b` -/
+def putUint32 (b : Bytes) (v : Nat) : Res Bytes :=
+  if 4 ≤ b.length then .ok (Bip32.be32 v ++ b.drop 4) else .panic
+
+/-- `ExtendedKey.Child(i)` (bip32/extendedkey.go), first half: building `data`
+(`data[offset:]`, `data[keyLen:]`, `PutUint32`) -/
+def childDataC (k : Bip32.XKey) (i : Nat) (hardened : Bool) : Res Bytes := do
+  let keyLen : Nat := 33
+  let data : Bytes := List.replicate (keyLen + 4) 0     -- make([]byte, keyLen+4)
+  let data ← (if hardened then do
+      let offset : Int := (keyLen : Int) - (k.key.length : Int)
+      let offset : Int := if offset < 1 then 1 else offset
+      let dst ← sliceFromI data offset                  -- copy(data[offset:], k.key)
+      pure (data.take offset.toNat ++ copyInto dst k.key)
+    else pure (copyInto data k.pubKeyBytes) : Res Bytes) -- copy(data, k.pubKeyBytes())
+  let dst ← sliceFrom data keyLen                       -- PutUint32(data[keyLen:], i)
+  let dst ← putUint32 dst i
+  pure (data.take keyLen ++ dst)
+
+/-- `Child(i)`, second half: `ilr[:len(ilr)/2]`, `ilr[len(ilr)/2:]`, `ParsePubKey(k.key)`.
+(`crypto.Hash160(x)[:4]` slices a 20-byte RIPEMD-160 digest: transcribed with `take`.) -/
+def childFinishC (pr : Prims) (k : Bip32.XKey) (i : Nat) (data : Bytes) : Res Bip32.XKey := do
+  let ilr := pr.hmac512 k.chainCode data
+  let il ← sliceTo ilr (ilr.length / 2)                 -- ilr[:len(ilr)/2]
+  let childChainCode ← sliceFrom ilr (ilr.length / 2)   -- ilr[len(ilr)/2:]
+  let ilNum := beNat il
+  if ilNum ≥ Bip32.N || ilNum = 0 then .err else
+  let parentFP := (pr.hash160 k.pubKeyBytes).take 4
+  if k.isPrivate then
+    let keyNum := beNat k.key
+    let childKey := natBE ((ilNum + keyNum) % Bip32.N)
+    pure { key := childKey, chainCode := childChainCode, parentFP := parentFP, version := k.version,
+           childNum := i, depth := k.depth + 1, isPrivate := true }
+  else
+    let ilp := Curve.scalarBaseMult il
+    if ilp.1 = 0 || ilp.2 = 0 then .err else do
+    let pub ← parsePubKeyC k.key
+    let c := Curve.add ilp pub
+    pure { key := Ecdsa.serCompressed c, chainCode := childChainCode, parentFP := parentFP,
+           version := k.version, childNum := i, depth := k.depth + 1, isPrivate := false }
+
+def childC (pr : Prims) (k : Bip32.XKey) (i : Nat) : Res Bip32.XKey :=
+  if k.depth == Gen.k_maxUint8 then .err else
+  let hardened := i ≥ Gen.k_hardenedKeyStart
+  if !k.isPrivate && hardened then .err else do
+  let data ← childDataC k i hardened
+  childFinishC pr k i data
+
+/-- the `for _, child := range children` loop of `DeriveChildFromPath` -/
+def derivePathAuxC (pr : Prims) : Bip32.XKey → List Bytes → Res Bip32.XKey
+  | k, [] => .ok k
+  | k, c :: cs => do
+    let i ← childIndexC c
+    let k' ← childC pr k i
+    derivePathAuxC pr k' cs
+
 /-- `DeriveChildFromPath`: `strings.Split` and a `range` loop over the components — no index
-expression in the function itself; `Child` is modelled by `Bip32.child`. -/
+expression in the function itself; the index expressions are those of `Child` (`childC`). -/
 def derivePathC (pr : Prims) (k : Bip32.XKey) (p : Bytes) : Res Bip32.XKey :=
-  ofExcept (Bip32.deriveChildFromPath pr k p)
+  if p.isEmpty then .ok k else derivePathAuxC pr k (Bip32.splitOn 47 p)
 
 /-- `DeriveNumber`: `ss[0]`, `ss[1]`, `ss[2]` after the `len(ss) != 3` test -/
 def deriveNumberC (p : Bytes) : Res UInt64 :=
